@@ -726,7 +726,60 @@ def r10_13(chk):
     chk.floor("R10.13", 1, "to_rich_dict")
 
 
+def r10_14(chk):
+    chk.rule("R10.14", "an object is rebuilt as what it was: the 'type' a to_rich_dict records is the provenance of the object itself (get_object_provenance(self)), not of a helper it holds -- the reader dispatches on that string, so an object that records another class comes back as that class (a MotifCountsArray / MotifFreqsArray / PSSM records its DictArrayTemplate and comes back as a plain DictArray, without its methods)")
+    n = 0
+    for mod in chk.repo.all_modules():
+        if "get_object_provenance" not in mod.source:
+            continue
+        for q, fn in mod.all_functions():
+            if not q.endswith("to_rich_dict"):
+                continue
+            typed = []
+            for x in walk_no_nested(fn):
+                if isinstance(x, ast.Dict):
+                    typed += [v for kx, v in zip(x.keys, x.values) if isinstance(kx, ast.Constant) and kx.value == "type"]
+                elif isinstance(x, ast.Call) and norm(x.func) == "dict":
+                    typed += [kw.value for kw in x.keywords if kw.arg == "type"]
+                elif isinstance(x, ast.Assign) and len(x.targets) == 1 and isinstance(x.targets[0], ast.Subscript) and isinstance(x.targets[0].slice, ast.Constant) and x.targets[0].slice.value == "type":
+                    typed.append(x.value)
+            for c in typed:
+                if isinstance(c, ast.Call) and (call_name(c) or "").split(".")[-1] == "get_object_provenance" and c.args:
+                    n += 1
+                    a = c.args[0]
+                    chk.decide(isinstance(a, ast.Name) and a.id == "self", "R10.14", key(mod, q, "records its own provenance"), mod.loc(c), "get_object_provenance(self)", f"`{norm(c)}` records the class of `{norm(a)}`, not of the object being serialised: every subclass (core/profile.py: MotifCountsArray, MotifFreqsArray, PSSM) comes back from to_json / deserialise_object as a plain DictArray")
+    chk.floor("R10.14", 20, "to_rich_dict methods that record a provenance")
+
+
+def r10_15(chk):
+    chk.rule("R10.15", "what the writer writes the reader uses: in a class that has both to_rich_dict and from_rich_dict, a key the writer stores (other than type / version) is not popped by the reader as a bare statement whose result is thrown away -- new-type SequenceCollection wrote its annotation_db and `data['init_args'].pop('annotation_db', None)` discarded it, so an annotated collection came back without its features")
+    n = 0
+    for mod in chk.repo.all_modules():
+        if "from_rich_dict" not in mod.source:
+            continue
+        for cname, ci in sorted(mod.classes.items()):
+            w = ci.methods.get("to_rich_dict")
+            r = ci.methods.get("from_rich_dict")
+            if not (isinstance(w, ast.FunctionDef) and isinstance(r, ast.FunctionDef)):
+                continue
+            written = set()
+            for x in ast.walk(w):
+                if isinstance(x, ast.Dict):
+                    written |= {kx.value for kx in x.keys if isinstance(kx, ast.Constant) and isinstance(kx.value, str)}
+                if isinstance(x, ast.Call) and norm(x.func) == "dict":
+                    written |= {kw.arg for kw in x.keywords if kw.arg}
+                if isinstance(x, ast.Subscript) and isinstance(x.ctx, ast.Store) and isinstance(x.slice, ast.Constant) and isinstance(x.slice.value, str):
+                    written.add(x.slice.value)
+            written -= {"type", "version"}
+            n += 1
+            bad = [st for st in walk_no_nested(r) if isinstance(st, ast.Expr) and isinstance(st.value, ast.Call) and isinstance(st.value.func, ast.Attribute) and st.value.func.attr == "pop" and st.value.args and isinstance(st.value.args[0], ast.Constant) and st.value.args[0].value in written]
+            chk.decide(not bad, "R10.15", key(mod, f"{cname}.from_rich_dict", "no written key is discarded"), mod.loc(bad[0] if bad else r), f"{len(written)} written key(s), none popped and dropped", f"`{norm(bad[0])[:70] if bad else ''}` throws away what {cname}.to_rich_dict stored under that key: the state it describes is missing from the rebuilt object")
+    chk.floor("R10.15", 5, "classes with a to_rich_dict / from_rich_dict pair")
+
+
 def run(chk):
+    r10_15(chk)
+    r10_14(chk)
     r10_13(chk)
     r10_12(chk)
     r10_11(chk)
